@@ -30,7 +30,11 @@ static Case gen_case ()
 	if (merge == 4) ns = 2 ;
 	c.seti ("ns", ns) ; c.seti ("merge", merge) ; c.seti ("mseed", (long long) *seedGen ()) ;
 	bool same = *rangeOf<int> (0, 2) == 0 ;	// every script on the same codec: shared per-codec state would show here
-	const FmtEntry *shared = pickEntry (all_vio_entries ()) ;
+	// the shared codec is drawn from the encodings that keep per-stream state in a private block (that is where state shared between
+	// handles, or left uninitialised, would live), each equally likely
+	static std::vector<const FmtEntry *> stateful ;
+	if (stateful.empty ()) for (auto *e : all_vio_entries ()) { const Codec *cd = codec_of (e->format) ; int maj = e->format & SF_FORMAT_TYPEMASK ; if (!is_granular (e->format) || cd->is_float || maj == SF_FORMAT_XI) stateful.push_back (e) ; }
+	const FmtEntry *shared = pickEntry (stateful.empty () ? all_vio_entries () : stateful) ;
 	for (int i = 0 ; i < ns ; i++)
 	{	const FmtEntry *e = same ? shared : pickEntry (all_vio_entries ()) ; std::string k = std::to_string (i) ;
 		c.seti ("f" + k, e->format) ; c.seti ("c" + k, pickChannels (e, 30)) ;
@@ -99,7 +103,7 @@ struct Script
 		else
 		{	int op = (int) rng.below (10) ;
 			if (op < 6)
-			{	int t = (int) rng.below (4) ; long long fr = (long long) rng.below (3) == 0 ? (long long) rng.below (3000) : (long long) rng.below (300) ; if (vox && ((fr * ch) & 1)) fr ++ ;
+			{	int t = (int) rng.below (4) ; long long fr = (long long) rng.below (3) == 0 ? (long long) rng.below (3000) : rng.below (2) ? (long long) rng.below (300) : (long long) rng.below (40) ; if (vox && ((fr * ch) & 1)) fr ++ ;
 				Block b ((size_t) fr * ch * stype_size (t)) ; int style = (int) rng.below (ST_COUNT) ; int fmode = (cd->is_float && rng.below (2)) ? 1 : 0 ;
 				gen_samples (b.p, t, (size_t) fr * ch, t == T_SHORT ? 16 : 32, fmode ? ST_NOISE : style, rng.next (), fmode) ;
 				sf_count_t w = sf_writef_t (h, t, b.p, fr) ; wrote = true ; log ("writef " + std::string (stype_name [t]) + " " + std::to_string (fr) + " -> " + std::to_string ((long long) w)) ; data_ops ++ ;
